@@ -147,7 +147,8 @@ func (e *env) compare(b *beh, key map[string]string, orig, out *cmsx.Parts, wher
 			}
 		}
 	}
-	chk("econtent", bytes.Equal(orig.EContent, out.EContent) && bytes.Equal(orig.ContentType, out.ContentType), true)
+	chk("econtent", bytes.Equal(orig.EContent, out.EContent), true)
+	chk("ctype", bytes.Equal(orig.ContentType, out.ContentType), true)
 	chk("sattrs", bytes.Equal(orig.SAttrs, out.SAttrs), true)
 	chk("sig", bytes.Equal(orig.Sig, out.Sig), true)
 	chk("sid", bytes.Equal(orig.Sid, out.Sid), true)
@@ -238,6 +239,58 @@ func (e *env) one(b *beh, n int) {
 		}
 		if sampleExt && e.opensslAccepts(x) {
 			e.openssl(b, key, out, "token")
+		}
+	case "Detach":
+		x := cmsx.Build(s, party, cmsx.BuildInput{ContentType: cmsx.OidTSTInfo,
+			EContent: cmsx.TSTInfoOctets(bytes.Repeat([]byte{9}, 32), pkix.AlgorithmIdentifier{Algorithm: cmsx.OidSHA256}, nil, e.now), Time: e.now, Inner: e.inner})
+		psd, err := pkcs7.Unmarshal(x)
+		if (err != nil) != (b.Outcome == "refused") {
+			key["kind"] = "refusal-differs"
+			e.r.Fail(key, b, "Detach: pkcs7.Unmarshal returns %v, the specification's outcome is %s (shape %+v)", err, b.Outcome, s)
+			return
+		}
+		if err != nil {
+			e.r.Count("refused_as_specified", 1)
+			return
+		}
+		content, err := psd.Detach()
+		if err != nil {
+			key["kind"] = "detach-error"
+			e.r.Fail(key, b, "Detach fails: %v", err)
+			return
+		}
+		out, err := psd.Marshal()
+		if err != nil {
+			key["kind"] = "marshal-error"
+			e.r.Fail(key, b, "Detach: Marshal fails: %v", err)
+			return
+		}
+		po, err1 := cmsx.ParseParts(x)
+		pn, err2 := cmsx.ParseParts(out)
+		if err1 != nil || err2 != nil {
+			key["kind"] = "walker"
+			e.r.Fail(key, b, "Detach: walker cannot read input (%v) or output (%v)", err1, err2)
+			return
+		}
+		_, _, inner, _, _ := cmsx.ReadTLV(po.EContent)
+		if pn.EContent != nil || !bytes.Equal(content, inner) {
+			key["kind"] = "detached-content"
+			e.r.Fail(key, b, "Detach: content still attached (%v) or the %d bytes handed back are not the encapsulated content", pn.EContent != nil, len(content))
+			return
+		}
+		pn2 := *pn
+		pn2.EContent = po.EContent // compare everything else
+		saved := b.Part["econtent"]
+		b.Part["econtent"] = "same"
+		ok := e.compare(b, key, po, &pn2, "")
+		b.Part["econtent"] = saved
+		if !ok {
+			return
+		}
+		if err := cmsx.VerifyParts(pn, party.Cert, inner, s.Key == "pss"); err != nil {
+			key["kind"] = "signature-broken"
+			e.r.Fail(key, b, "Detach: the detached value no longer verifies against the content handed back: %v", err)
+			return
 		}
 	case "Embed", "EmbedDetach":
 		ki := e.w.Keys[[]string{"rsa2048", "p256"}[n%2]]
